@@ -456,7 +456,10 @@ def stepWrite (c : Ctl) (off len : Nat) (fails : List String) (tried : List (Str
     let errs := (tried.filter fun t => t.2 = .fail).map (·.1)
     let served := tried.any fun t => t.2 = .ok
     if errs.isEmpty then (if served then stepFanOut c1 "WriteAt" fails else (c1, .failed)) else
-    if served ∧ !(c1.ioFail errs).2 then stepFanOut (c1.ioFail errs).1 "WriteAt" fails
+    if served ∧ !(c1.ioFail errs).2 then
+      -- dropping the readers that failed may have cost the volume its quorum: the gate is looked at again
+      if (c1.ioFail errs).1.readOnly then ((c1.ioFail errs).1, .refused)
+      else stepFanOut (c1.ioFail errs).1 "WriteAt" fails
     else ((c1.ioFail errs).1, .failed)
   else stepFanOut c "WriteAt" fails
 
